@@ -36,6 +36,7 @@
 -/
 import BMV.Proofs.Basm
 import BMV.Proofs.BasmSem
+import BMV.BasmTempl
 namespace BMV.Props.C05
 open BMV BMV.Bits BMV.Basm
 
@@ -355,5 +356,56 @@ example : ((refRun (SecCtx.of demoArith arithSec) demoEnv 6).map fun r => (r.reg
 example : ((isaRun arithCp.arch arithCp.prog demoEnv 6).map fun vm => (vm.regs, vm.outputs)) = some ([29, 0], [29]) := by decide
 example : (refRun (SecCtx.of demoArith arithSec) demoEnv 7).isNone = true := by decide
 example : (isaRun arithCp.arch arithCp.prog demoEnv 7).isNone = true := by decide
+
+/-! ### templated sources (BMV/BasmTempl.lean): templating is a pre-pass -/
+
+/-- a source with template sections and processor parameters means what its per-processor
+    instantiation means: whatever `instantiate` produces is covered by `assemble_correct` as it stands
+    (every processor of the instantiated source runs the instance made from ITS OWN parameters). -/
+theorem assemble_correct_templated (ts : TSource) (src : Source) (bm : BM)
+    (_hi : instantiate ts = some src) (ha : assemble src true = .ok bm) :
+    ∀ (i : Nat) (c : CpDef) (cp : CP), src.procs[i]? = some c → bm.cps[i]? = some cp →
+      ∃ sec ∈ src.sections, sec.name = c.romcode ∧
+        ∀ (e0 : Env) (env : Nat → Env) (t : Nat) (r : RefState), refRun (SecCtx.of src sec) env t = some r →
+          ∃ vm, isaRun cp.arch cp.prog (entryEnv sec.lines e0 env) (t + entryDelay sec.lines) = some vm ∧
+            ObsEq cp.arch sec.lines (entryDelay sec.lines) r vm :=
+  assemble_correct src bm ha
+
+/-- the lines of a processor's instance depend on that processor's parameters only -/
+theorem instance_depends_on_own_parameters (ps qs : Params) (items : List TItem)
+    (h : ∀ n, ps.get n = qs.get n ∧ ps.has n = qs.has n) : instItems ps items = instItems qs items :=
+  instItems_own ps qs items h
+
+/-- a conditional block is kept exactly for the processors that have the parameter -/
+theorem conditional_block (ps : Params) (n : String) (body : List TLine) (rest : List TItem) :
+    instItems ps (.ifp n body :: rest) =
+      (if ps.has n then
+        (match body.mapM (instLine ps), instItems ps rest with | some xs, some ys => some (xs ++ ys) | _, _ => none)
+       else instItems ps rest) :=
+  instItems_ifp ps n body rest
+
+/-- two processors on one templated section: `cpa` sets `twice`, `cpb` (later in name order) does not -/
+def demoTempl : TSource :=
+  { base := { rsize := some 8, iomode := some .async,
+              cps := [{ name := "cpa", romcode := "main" }, { name := "cpb", romcode := "main" }] },
+    templates := [{ name := "main", items :=
+      [ .line { op := "entry", args := [.arg (.sym "start")] },
+        .line { labels := ["start"], op := "mov", args := [.arg (.reg 0), .param "start"] },
+        .line { labels := ["loop"], op := "inc", args := [.arg (.reg 0)] },
+        .ifp "twice" [{ op := "inc", args := [.arg (.reg 0)] }],
+        .line { op := "mov", args := [.arg (.out 0), .arg (.reg 0)] },
+        .line { op := "j", args := [.arg (.sym "loop")] } ] }],
+    params := [("cpa", [("start", .num 7), ("twice", .num 1)]), ("cpb", [("start", .num 9)])] }
+
+def templSrc : Source := (instantiate demoTempl).getD {}
+example : (instantiate demoTempl).isSome = true := by decide
+example : templSrc.cps = [{ name := "cpa", romcode := "main_templ_0" }, { name := "cpb", romcode := "main_templ_1" }] := by decide
+example : templSrc.sections.map (fun s => (s.name, s.lines.length)) = [("main_templ_0", 6), ("main_templ_1", 5)] := by decide
+example : (match assemble templSrc true with | .ok bm => bm.cps.map (·.prog.length) | .error _ => []) = [5, 4] := by decide
+-- the parameter of `cpa` does not reach `cpb`: after 5 ticks cpa shows 7+2, cpb 9+1
+example : (templSrc.sections.map fun s => (refRun (SecCtx.of templSrc s) demoEnv 4).map fun r => r.outputs 0) = [some 9, some 10] := by decide
+-- a processor without parameters cannot run a template section; one that shares a plain section with a
+-- parameterised processor finds it gone (as in the tool)
+example : (instantiate { demoTempl with params := [("cpa", [("start", .num 7)])] }).isNone = true := by decide
 
 end BMV.Props.C05
